@@ -184,6 +184,23 @@ def check_elements(R, name, lib, smi, as_object=False):
         for pr in probs[:1]:
             R.violation('elements:%s' % ('sum' if 'lowered' in pr else 'other'),
                         '[%s] %s at T=%r: %s' % (name, smi, T, pr), wit)
+    # ... and stays what it was when the library later decomposes something else
+    T0 = temps[0]
+    first = E.ev(e.get_SoR, T0, S_elements=True)
+    other = 'O' if Chem.MolToSmiles(Chem.MolFromSmiles(smi)) != 'O' else 'CC'
+    E.ev(lib.GetDescriptors, other)
+    E.ev(lib.GetDescriptors, 'C' if other != 'C' else 'CC')
+    again = E.ev(e.get_SoR, T0, S_elements=True)
+    R.evals += 1
+    R.nontrivial += 1
+    if first[:2] != again[:2]:
+        R.outcomes['elements:follows-later-decomposition'] += 1
+        R.violation('elements:later-decomposition-changes-estimate',
+                    '[%s] estimate for %s: S/R relative to the elements was %r, after the '
+                    'library decomposed other molecules it is %r' % (name, smi, first[:2], again[:2]),
+                    wit)
+    else:
+        R.outcomes['elements:stable'] += 1
     R.sample(dict(library=name, molecule=smi, atoms=mh.GetNumAtoms(),
                   elemental_SoR=want_sub), limit=1)
 
